@@ -311,7 +311,17 @@ fn seeded_terms<F: PrimeField>(seed: u64, nv: usize, nterms: usize, maxpow: u64,
         for _ in 0..len {
             let v = (w % nv as u64) as usize;
             w = splitmix(w);
-            let e = (w % (maxpow + 1)) as usize;
+            // small exponent bounds: uniform; larger bounds (powers of two and their neighbours): the bound itself, its
+            // neighbours below, or a small exponent
+            let e = if maxpow <= 3 {
+                (w % (maxpow + 1)) as usize
+            } else {
+                match w % 4 {
+                    0 => maxpow as usize,
+                    1 => (maxpow - 1 - (w >> 8) % 2) as usize,
+                    _ => ((w >> 8) % 4) as usize,
+                }
+            };
             w = splitmix(w);
             m.push((v, e));
         }
@@ -339,7 +349,12 @@ pub fn many_terms_rel<F: PrimeField>(t: &mut Tape<'_>, o: &mut Obs, max_terms: u
         1 => t.range(40, max_terms as u64 / 2) as usize,
         _ => t.range(max_terms as u64 / 2, max_terms as u64) as usize,
     };
-    let maxpow = t.range(1, 3);
+    let maxpow = match t.weighted(&[3, 1]) {
+        0 => t.range(1, 3),
+        // exponents at and around powers of two (table sizes of power caches)
+        _ => t.pick(&[8u64, 7, 9, 16, 17, 31, 32, 33, 63, 64, 65, 128, 255, 256]),
+    };
+    o.class_if(maxpow > 3, "mv-many-terms-exponents-at-powers-of-two");
     let small = t.bool();
     let (sa, sb) = (t.u64(), t.u64());
     let ra = seeded_terms::<F>(sa, nv, nterms, maxpow, small);
